@@ -61,6 +61,7 @@ func scenarioRoute() int {
 	hopDialIns := 0
 	relayed, dropped := 0, 0
 	egressChecked, egressDrops := 0, 0
+	cancelPairs := 0
 	for i := 0; i < n; i++ {
 		if h := w.Health(); h != "" {
 			run.Violation("proxy died during the run (belongs to C08; the run cannot continue)", map[string]any{"health": h})
@@ -97,6 +98,21 @@ func scenarioRoute() int {
 			c.unobservable = &wire.Dest{Proto: c.model.Proto, IP: c.model.IP, Port: c.model.Port}
 			c.model.Drop, c.model.Why = true, "destination "+c.model.String()+" is not observable"
 		}
+		pairWithCancel := i%7 == 3 && len(c.rreq.Routes) > 0
+		if pairWithCancel {
+			// this one is an INVITE; a CANCEL with the same Via, Call-ID, sequence number and Route set
+			// follows it (same routing, same Route handling)
+			if sp := strings.IndexByte(c.msg.Start, ' '); sp > 0 {
+				c.msg.Start = "INVITE" + c.msg.Start[sp:]
+			}
+			for k, h := range c.msg.Headers {
+				if sip.Canon(h.Name) == "cseq" {
+					if f := strings.Fields(h.Value); len(f) == 2 {
+						c.msg.Headers[k].Value = f[0] + " INVITE"
+					}
+				}
+			}
+		}
 		if err := w.Send(c.path, c.msg.Bytes(), c.id); err != nil {
 			w.DropConn(c.path)
 			run.Inconclusive(1)
@@ -116,6 +132,40 @@ func scenarioRoute() int {
 		if prop == "C03" && w.EgressReady {
 			egressChecked++
 			judgeEgress(run, w, c)
+		}
+		if pairWithCancel && c.msg != nil && run.Violations() <= 10 {
+			c2 := *c
+			c2.id = c.id + "k"
+			m2 := c.msg.Clone()
+			if sp := strings.IndexByte(m2.Start, ' '); sp > 0 {
+				m2.Start = "CANCEL" + m2.Start[sp:]
+			}
+			for k, h := range m2.Headers {
+				switch sip.Canon(h.Name) {
+				case "cseq":
+					if f := strings.Fields(h.Value); len(f) == 2 {
+						m2.Headers[k].Value = f[0] + " CANCEL"
+					}
+				case "x-vf":
+					m2.Headers[k].Value = c2.id
+				}
+			}
+			c2.msg = m2
+			c2.cell = c.cell + " cancel-after-its-invite"
+			if w.Send(c2.path, m2.Bytes(), c2.id) == nil {
+				if !c2.model.Drop {
+					w.Net.WaitCase(c2.id, func(o []*wire.Obs) bool { return len(o) >= 1 }, w.BarrierWait)
+				}
+				if w.Barrier(c2.path) {
+					obs2 := w.Net.ForCase(c2.id)
+					c2.nobs = len(obs2)
+					judgeRoute(run, w, prop, &c2, obs2)
+					cancelPairs++
+					cc := c2
+					cc.msg = nil
+					cases = append(cases, &cc)
+				}
+			}
 		}
 		if i%200 == 199 {
 			if d := w.Net.SnifferDrops(); d > 0 {
@@ -222,6 +272,7 @@ func scenarioRoute() int {
 	run.Observe("packets_seen_by_the_egress_monitor", w.Net.SnifferPackets())
 	run.Observe("packets_dropped_by_the_egress_monitor", egressDrops)
 	run.Observe("connections_opened_by_next_hops_towards_the_proxy", hopDialIns)
+	run.Observe("invites_followed_by_their_cancel", cancelPairs)
 	run.Observe("cases_relayed", relayed)
 	run.Observe("cases_dropped", dropped)
 	run.Observe("barriers", w.Barriers)
